@@ -216,6 +216,20 @@ example (P : Params) (hdn : DnegOld P) (T : Interp) :
 end C08ex
 
 
+
+open Proofs.C08impl in
+/-- **an implied literal deleted from the body of an objective** (fragment and check as for rules): the program has the
+same stable models, and in every stable model the objective contributes the same cost tuples (C02) -/
+theorem C08_remove_implied_in_objective (P : Sem.Params) (hdn : DnegOld P) (R : ObjRewrite) (bb : List BLit)
+    (hsame : sameLits bb (R.qLit :: R.body) = true) (h : objImpliedCheck R = true) (T : Sem.Interp) :
+    (Sem.Stable (Sem.stdParams P) R.src T ↔ Sem.Stable (Sem.stdParams P) R.res T) ∧
+      (Sem.Stable (Sem.stdParams P) R.src T →
+        ∀ tup, Sem.costTuples (Sem.stdParams P) T (.minimize R.line R.col R.weight R.prio R.terms bb) tup ↔
+          Sem.costTuples (Sem.stdParams P) T R.resStm tup) :=
+  ⟨(obj_of_check P hdn R h T).1, fun hS tup =>
+    (Proofs.C08anonObj.costTuples_same_body (Sem.stdParams P) R.line R.col R.line R.col R.weight R.prio R.terms bb (R.qLit :: R.body)
+      (sameLits_sound _ _ hsame) T tup).trans ((obj_of_check P hdn R h T).2 hS tup)⟩
+
 /-! ## a weaker copy of a body literal (`p(X), p(_)`), for every program (`Proofs/C08anon.lean`) -/
 open Proofs.C08anon in
 /-- **deleting `p(t̄)` next to `p(s̄)` is a strong equivalence** when `t̄` is `s̄` with some arguments replaced by distinct
